@@ -390,8 +390,11 @@ def run(repo: Repo, rep: Report, tier: str) -> None:
     union_call_rule(repo, rep, "C11.R11")
     union_write_fold_rule(repo, rep, "C11.R12")
     proxy_liveness_rule(repo, rep, "C11.R13")
+    from .memo import memo_rule
 
+    memo_rule(repo, rep, "C11.R16")
+    from .c02 import default_substitution_rule
+    from .c08 import call_shortcut_rule
 
-
-
-
+    default_substitution_rule(repo, rep, "C11.R17")
+    call_shortcut_rule(repo, rep, "C11.R18")
